@@ -16,11 +16,19 @@
 (*        GetSchema        `schema = get_schema(name, <since constant>, domain)`                 *)
 (*        Prepare/TrimPop/TrimStop   Opset._prepare_inputs: `while l and l[-1] is None: l.pop()` *)
 (*        Forward          `Op(self, name, schema)(inputs.., attrs..)` -> evaluator.eval_op       *)
+(*     and, from the same attribute access, one TRANSLATION of `opsetN.Op(..)` inside a script:  *)
+(*        TransCallee      converter._translate_callee_expr: values.Op(opsetN, name) = opsetN[name]*)
+(*        TransEmit        the emitted node records its opset in graph.opset_imports             *)
+(*        ToModel          OnnxFunction.to_model_proto(opset_version = req), req in              *)
+(*                         {none, N, M # N}: the argument is consulted only when the standard     *)
+(*                         opset cannot be inferred from the opset classes the script used       *)
 (*   - and states the property (Mirror, DynAgrees) against the declarative reading of ONNX:      *)
 (*     Resolve = schema with the greatest since_version <= N; DesignTrim = cut after the last    *)
 (*     non-None input.                                                                           *)
 (* Deviations: "deprecated_op_inherited" - opgen skips a deprecated schema instead of masking    *)
 (*     the inherited method, so OpsetN.Op keeps denoting the last non-deprecated version.        *)
+(*   "opset_version_overrides" (not in the code today; shows TransMirror can fail) - a requested *)
+(*     opset_version replaces the standard opset import although opsetN was used.                *)
 (* Values: the k-th positional argument is the sentinel k, None is 0; the j-th attribute (in the *)
 (* order of the dumped schema = sorted by name) given by the caller is the sentinel 100+j, an    *)
 (* attribute left out is DFLT (= "whatever default the generated parameter has", which the       *)
@@ -30,7 +38,8 @@ EXTENDS Integers, Sequences, FiniteSets, TLC, Json, IOUtils
 CONSTANTS Deviations,      \* set of deviation ids the implementation model includes
           MaxExtra,        \* actuals explored for a variadic formal: 0..MaxExtra
           AttrModes,       \* subset of {"omit", "all", "one"}
-          VarNone          \* TRUE: also a trailing None inside the variadic tail
+          VarNone,         \* TRUE: also a trailing None inside the variadic tail
+          ReqVersions      \* fixed versions tried as `opset_version` (besides none, N and the op's change points)
 
 Reg == JsonDeserialize(IOEnv.SCHEMAS_FILE)
 Domains == DOMAIN Reg.maxver
@@ -91,37 +100,43 @@ VARIABLES dom, name, ver,  \* the case: opset<dom><ver>.<name>
           used,            \* since_version passed to get_schema by the method body
           prep, pops,      \* _prepare_inputs: working list, number of pops so far
           event,           \* what reaches evaluator.eval_op
-          want             \* the declarative reading, for the harness
-vars == <<dom, name, ver, pc, cls, owner, dyn, pos, given, inputs, kw, used, prep, pops, event, want>>
+          want,            \* the declarative reading, for the harness
+          callee,          \* translation: since_version of the schema the converter classifies the node against
+          gstd,            \* translation: standard-domain entry of graph.opset_imports (0: none recorded)
+          req,             \* to_model_proto(opset_version = req); 0: not passed
+          mstd             \* standard opset import of the ModelProto
+tvars == <<callee, gstd, req, mstd>>
+vars == <<dom, name, ver, pc, cls, owner, dyn, pos, given, inputs, kw, used, prep, pops, event, want, callee, gstd, req, mstd>>
 
 NoEvent == [since |-> 0, self |-> 0, prepared |-> FALSE, inputs |-> <<>>, kw |-> <<>>]
-NoWant == [since |-> 0, live |-> FALSE, shadow |-> FALSE, inputs |-> <<>>]
+NoWant == [since |-> 0, live |-> FALSE, shadow |-> FALSE, inputs |-> <<>>, std |-> 0]
 
 Init == /\ dom \in Domains /\ name \in Probe(dom) /\ ver \in 1..MaxVer(dom)
         /\ pc = "mro" /\ cls = ver /\ owner = 0 /\ dyn = 0
         /\ pos = <<>> /\ given = {} /\ inputs = <<>> /\ kw = <<>> /\ used = 0 /\ prep = <<>> /\ pops = 0
         /\ event = NoEvent /\ want = NoWant
+        /\ callee = 0 /\ gstd = 0 /\ req = 0 /\ mstd = 0
 
 \* --- type(opsetN).__mro__ walk
 MroStep == /\ pc = "mro" /\ GenKind(dom, cls, name) = "none" /\ cls > 1
            /\ cls' = cls - 1
-           /\ UNCHANGED <<dom, name, ver, pc, owner, dyn, pos, given, inputs, kw, used, prep, pops, event, want>>
+           /\ UNCHANGED <<tvars, dom, name, ver, pc, owner, dyn, pos, given, inputs, kw, used, prep, pops, event, want>>
 MroFound == /\ pc = "mro" /\ GenKind(dom, cls, name) = "method"
             /\ owner' = cls /\ pc' = "lookup"
-            /\ UNCHANGED <<dom, name, ver, cls, dyn, pos, given, inputs, kw, used, prep, pops, event, want>>
+            /\ UNCHANGED <<tvars, dom, name, ver, cls, dyn, pos, given, inputs, kw, used, prep, pops, event, want>>
 MroTomb == /\ pc = "mro" /\ GenKind(dom, cls, name) = "tombstone"
            /\ owner' = 0 /\ pc' = "lookup"
-           /\ UNCHANGED <<dom, name, ver, cls, dyn, pos, given, inputs, kw, used, prep, pops, event, want>>
+           /\ UNCHANGED <<tvars, dom, name, ver, cls, dyn, pos, given, inputs, kw, used, prep, pops, event, want>>
 MroBottom == /\ pc = "mro" /\ GenKind(dom, cls, name) = "none" /\ cls = 1      \* base class Opset has no op methods
              /\ owner' = 0 /\ pc' = "lookup"
-             /\ UNCHANGED <<dom, name, ver, cls, dyn, pos, given, inputs, kw, used, prep, pops, event, want>>
+             /\ UNCHANGED <<tvars, dom, name, ver, cls, dyn, pos, given, inputs, kw, used, prep, pops, event, want>>
 \* --- opset[name] / name in opset / Opset.__getattr__: onnx.defs.get_schema(name, self.version, self.domain)
 DynLookup == /\ pc = "lookup"
              /\ dyn' = ResolveSince(dom, name, ver)
              /\ want' = [since |-> ResolveSince(dom, name, ver), live |-> Live(dom, name, ver),
-                         shadow |-> DeprecatedShadow(dom, name, ver), inputs |-> <<>>]
+                         shadow |-> DeprecatedShadow(dom, name, ver), inputs |-> <<>>, std |-> 0]
              /\ pc' = IF owner = 0 THEN "nomethod" ELSE "found"
-             /\ UNCHANGED <<dom, name, ver, cls, owner, pos, given, inputs, kw, used, prep, pops, event>>
+             /\ UNCHANGED <<tvars, dom, name, ver, cls, owner, pos, given, inputs, kw, used, prep, pops, event>>
 
 \* --- the caller
 Sch == SchemaAt(dom, name, owner)
@@ -140,43 +155,69 @@ GivenChoices(s) ==
 ChooseCall == /\ pc = "found"
               /\ \E p \in PosChoices(Sch), g \in GivenChoices(Sch) : pos' = p /\ given' = g
               /\ pc' = "bind"
-              /\ UNCHANGED <<dom, name, ver, cls, owner, dyn, inputs, kw, used, prep, pops, event, want>>
+              /\ UNCHANGED <<tvars, dom, name, ver, cls, owner, dyn, inputs, kw, used, prep, pops, event, want>>
 \* --- Python binds the call to `def Op(self, <inputs>, *, <attributes>)`
 Bind == /\ pc = "bind"
         /\ inputs' = [i \in 1..(IF Len(pos) > NFixed(Sch) THEN Len(pos) ELSE NFixed(Sch)) |->
                         IF i <= Len(pos) THEN pos[i] ELSE 0]          \* omitted optional input: default None
         /\ kw' = [j \in 1..NAttr(Sch) |-> IF j \in given THEN 100 + j ELSE DFLT]
         /\ pc' = "getschema"
-        /\ UNCHANGED <<dom, name, ver, cls, owner, dyn, pos, given, used, prep, pops, event, want>>
+        /\ UNCHANGED <<tvars, dom, name, ver, cls, owner, dyn, pos, given, used, prep, pops, event, want>>
 \* --- schema = get_schema("<name>", <since>, "<domain>"): the constant is the version of the generating schema
 GetSchema == /\ pc = "getschema"
              /\ used' = owner
              /\ pc' = IF NIn(Sch) = 0 THEN "forward" ELSE "prepare"     \* no inputs: `op(attrs..)` without _prepare_inputs
-             /\ UNCHANGED <<dom, name, ver, cls, owner, dyn, pos, given, inputs, kw, prep, pops, event, want>>
+             /\ UNCHANGED <<tvars, dom, name, ver, cls, owner, dyn, pos, given, inputs, kw, prep, pops, event, want>>
 \* --- Opset._prepare_inputs(schema, inputs..)
 Prepare == /\ pc = "prepare"
            /\ prep' = inputs /\ pops' = 0 /\ pc' = "trim"
-           /\ UNCHANGED <<dom, name, ver, cls, owner, dyn, pos, given, inputs, kw, used, event, want>>
+           /\ UNCHANGED <<tvars, dom, name, ver, cls, owner, dyn, pos, given, inputs, kw, used, event, want>>
 LastIsNone(l) == IF Len(l) = 0 THEN FALSE ELSE l[Len(l)] = 0
 TrimPop == /\ pc = "trim" /\ LastIsNone(prep)
            /\ prep' = SubSeq(prep, 1, Len(prep) - 1) /\ pops' = pops + 1
-           /\ UNCHANGED <<dom, name, ver, pc, cls, owner, dyn, pos, given, inputs, kw, used, event, want>>
+           /\ UNCHANGED <<tvars, dom, name, ver, pc, cls, owner, dyn, pos, given, inputs, kw, used, event, want>>
 TrimStop == /\ pc = "trim" /\ ~LastIsNone(prep)
             /\ pc' = "forward"
-            /\ UNCHANGED <<dom, name, ver, cls, owner, dyn, pos, given, inputs, kw, used, prep, pops, event, want>>
+            /\ UNCHANGED <<tvars, dom, name, ver, cls, owner, dyn, pos, given, inputs, kw, used, prep, pops, event, want>>
 \* --- Op(self, name, schema)(prepared.., attrs..) -> evaluator.default().eval_op(op, args, kwargs)
 Forward == /\ pc = "forward"
            /\ event' = [since |-> used, self |-> ver, prepared |-> NIn(Sch) > 0,
                         inputs |-> IF NIn(Sch) > 0 THEN prep ELSE <<>>, kw |-> kw]
            /\ want' = [want EXCEPT !.inputs = DesignTrim(pos)]
            /\ pc' = "done"
-           /\ UNCHANGED <<dom, name, ver, cls, owner, dyn, pos, given, inputs, kw, used, prep, pops>>
+           /\ UNCHANGED <<tvars, dom, name, ver, cls, owner, dyn, pos, given, inputs, kw, used, prep, pops>>
+
+\* ---------------------------------------------------------------- one translation of `opsetN.Op(..)` in a script
+StdDom == "onnx"
+DefaultStd == MaxVer(StdDom)                \* onnx.defs.onnx_opset_version()
+\* versions around which the operator changes meaning: the next schema version and the last version of the previous one
+ChangePoints(d, n, v) == LET k == ResolveIdx(d, n, v) IN
+                         (IF k # 0 /\ k < Len(Hist(d, n)) THEN {Hist(d, n)[k + 1].since} ELSE {})
+                         \cup (IF k > 1 THEN {Hist(d, n)[k].since - 1} ELSE {})
+ReqChoices(d, n, v) == {0, v} \cup {m \in ReqVersions \cup (IF d = StdDom THEN ChangePoints(d, n, v) ELSE {}) : m # v}
+\* --- converter._translate_callee_expr: values.Op(module, attr) without schema -> module[attr] (dynamic lookup)
+TransCallee == /\ pc = "found"
+               /\ callee' = dyn /\ pc' = "t_callee"
+               /\ UNCHANGED <<dom, name, ver, cls, owner, dyn, pos, given, inputs, kw, used, prep, pops, event, want, gstd, req, mstd>>
+\* --- irbuilder: the node's opset is recorded in graph.opset_imports[domain] = version
+TransEmit == /\ pc = "t_callee"
+             /\ gstd' = (IF dom = StdDom THEN ver ELSE 0) /\ pc' = "t_emit"
+             /\ UNCHANGED <<dom, name, ver, cls, owner, dyn, pos, given, inputs, kw, used, prep, pops, event, want, callee, req, mstd>>
+\* --- OnnxFunction._to_model_proto: `if "" not in opset_imports: opset_imports[""] = opset_version or onnx_opset_version()`
+ModelStd(g, r) == IF "opset_version_overrides" \in Deviations /\ r # 0 THEN r
+                  ELSE IF g # 0 THEN g ELSE IF r # 0 THEN r ELSE DefaultStd
+ToModel == /\ pc = "t_emit"
+           /\ \E r \in ReqChoices(dom, name, ver) :
+                 /\ req' = r /\ mstd' = ModelStd(gstd, r)
+                 /\ want' = [want EXCEPT !.std = IF dom = StdDom THEN ver ELSE IF r # 0 THEN r ELSE DefaultStd]
+           /\ pc' = "t_model"
+           /\ UNCHANGED <<dom, name, ver, cls, owner, dyn, pos, given, inputs, kw, used, prep, pops, event, callee, gstd>>
 Next == MroStep \/ MroFound \/ MroTomb \/ MroBottom \/ DynLookup \/ ChooseCall \/ Bind \/ GetSchema
-        \/ Prepare \/ TrimPop \/ TrimStop \/ Forward
+        \/ Prepare \/ TrimPop \/ TrimStop \/ Forward \/ TransCallee \/ TransEmit \/ ToModel
 Spec == Init /\ [][Next]_vars
 
 \* ---------------------------------------------------------------- the property
-Resolved == pc \in {"found", "nomethod", "bind", "getschema", "prepare", "trim", "forward", "done"}
+Resolved == pc \in {"found", "nomethod", "bind", "getschema", "prepare", "trim", "forward", "done", "t_callee", "t_emit", "t_model"}
 \* a method exists exactly for the operators ONNX defines (and has not deprecated) at that version,
 \* and it is the one generated from the schema ONNX resolves to
 MethodMirror == Resolved => /\ (owner # 0) = Live(dom, name, ver)
@@ -194,8 +235,18 @@ CallMirror == pc = "done" =>
 Mirror == MethodMirror /\ CallMirror
 \* dynamic lookup agrees with the static class
 DynAgrees == (Resolved /\ owner # 0) => dyn = owner
+\* opsetN.Op denotes the same schema in translation as in eager mode: the node is classified against the schema the
+\* method evaluates, the model's standard opset import is the N of the opset class used (whatever opset_version the
+\* caller passes) so that the node, read in the model, resolves to that same schema; the argument decides only when
+\* no standard opset was used
+TransMirror == pc = "t_model" =>
+                  /\ callee = owner
+                  /\ dom = StdDom => (mstd = ver /\ ResolveSince(dom, name, mstd) = owner)
+                  /\ dom # StdDom => mstd = (IF req # 0 THEN req ELSE DefaultStd)
 \* with the deviations switched on, every departure is explained by a deviation's guard
-Explained == (~Mirror \/ ~DynAgrees) => ("deprecated_op_inherited" \in Deviations /\ DeprecatedShadow(dom, name, ver))
+Explained == (~Mirror \/ ~DynAgrees \/ ~TransMirror) =>
+                \/ "deprecated_op_inherited" \in Deviations /\ DeprecatedShadow(dom, name, ver)
+                \/ "opset_version_overrides" \in Deviations /\ pc = "t_model" /\ dom = StdDom /\ req \notin {0, ver}
 \* the trimming loop terminates with exactly the declarative result at every intermediate step
 TrimInv == pc = "trim" => /\ Len(prep) + pops = Len(inputs)
                           /\ \A i \in (Len(prep) + 1)..Len(inputs) : inputs[i] = 0
@@ -210,10 +261,16 @@ SomeDeprecatedMasked == ~(pc = "nomethod" /\ dyn # 0)
 SomeDefaulted == ~(pc = "done" /\ \E j \in 1..Len(event.kw) : event.kw[j] = DFLT)
 SomeNoInputs == ~(pc = "done" /\ ~event.prepared)
 SomeShadow == ~(Resolved /\ owner # 0 /\ DeprecatedShadow(dom, name, ver))
+SomeRequestedOther == ~(pc = "t_model" /\ dom = StdDom /\ req \notin {0, ver} /\ ResolveSince(dom, name, req) # owner)
+SomeNotInferred == ~(pc = "t_model" /\ dom # StdDom /\ req # 0 /\ mstd = req)
 
 NoDevs == {}
 RealDevs == {"deprecated_op_inherited"}    \* what the code does today
-AllDevs == {"deprecated_op_inherited"}     \* every deviation the model knows (OpsetDispatch_canfail.cfg)
+AllDevs == {"deprecated_op_inherited", "opset_version_overrides"}     \* every deviation the model knows
+ShadowDev == {"deprecated_op_inherited"}                                        \* OpsetDispatch_canfail.cfg
+OverrideDev == {"opset_version_overrides"}                              \* OpsetDispatch_canfail_trans.cfg
+ReqQuick == {13}
+ReqThorough == {7, 13, 18}
 ModesQuick == {"omit", "all"}
 ModesThorough == {"omit", "all", "one"}
 =============================================================================
